@@ -45,38 +45,24 @@ impl Shrink for Case {
     }
 }
 
-/// Enforce the property's precondition: nesting (brackets of any kind, and runs of unary '-')
-/// no deeper than 64.
+/// Enforce the property's precondition: nesting (brackets of any kind) no deeper than 64. A run
+/// of signs, separators, comments or declarations is not nesting and is not capped.
 pub fn cap_nesting(s: &str, cap: usize) -> String {
     let mut depth = 0usize;
-    let mut minus_run = 0usize;
     let mut out = String::with_capacity(s.len());
     for ch in s.chars() {
         match ch {
             '[' | '{' | '<' | '(' => {
-                minus_run = 0;
                 if depth < cap {
                     depth += 1;
                     out.push(ch);
                 }
             }
             ']' | '}' | '>' | ')' => {
-                minus_run = 0;
                 depth = depth.saturating_sub(1);
                 out.push(ch);
             }
-            '-' => {
-                minus_run += 1;
-                if minus_run <= cap {
-                    out.push(ch)
-                }
-            }
-            c => {
-                if !c.is_whitespace() {
-                    minus_run = 0;
-                }
-                out.push(c)
-            }
+            c => out.push(c),
         }
     }
     out
@@ -166,17 +152,39 @@ enum Mutation {
     Inflate(u16, u8, u8),
     Unterminate(u16),
     Insert(u16, String),
+    /// put a fragment inside a token (a string literal, a number, a comment, a name)
+    Poke(u16, u16, u8),
+    /// repeat a bracket-free token (or a few consecutive ones) many times: a long run, not nesting
+    Run(u16, u8, u8, u8),
+}
+
+const OPENERS: [char; 4] = ['<', '[', '{', '('];
+/// How often a unit is repeated, bounded so that the document stays within 64 KiB.
+fn run_count(class: u8, unit_len: usize, rest_len: usize) -> usize {
+    let want = match class % 8 {
+        0..=2 => 100,
+        3..=5 => 1000,
+        6 => 4000,
+        _ => 20000,
+    };
+    want.min(65536usize.saturating_sub(rest_len) / unit_len.max(1))
 }
 
 fn arb_mutation() -> BoxedStrategy<Mutation> {
-    prop_oneof![
+    let one = prop_oneof![
         any::<u16>().prop_map(Mutation::Delete),
         any::<u16>().prop_map(Mutation::Duplicate),
         any::<u16>().prop_map(Mutation::Swap),
         (any::<u16>(), any::<u8>()).prop_map(|(i, k)| Mutation::Keyword(i, k)),
         (any::<u16>(), 1u8..=40, 0u8..10).prop_map(|(i, n, d)| Mutation::Inflate(i, n, d)),
         any::<u16>().prop_map(Mutation::Unterminate),
-        (any::<u16>(), "[-0-9a-fx.eE+:;,=<>(){}\\[\\]\"'/*# ]{1,6}").prop_map(|(i, s)| Mutation::Insert(i, s)),
+        (any::<u16>(), "[-0-9a-fx.eE+:;,=<>(){}\\[\\]\"'/*# \\\\\u{e9}\u{4e2d}]{1,6}").prop_map(|(i, s)| Mutation::Insert(i, s)),
+    ]
+    .boxed();
+    prop_oneof![
+        17 => one,
+        2 => (any::<u16>(), any::<u16>(), any::<u8>()).prop_map(|(i, at, k)| Mutation::Poke(i, at, k)),
+        1 => (any::<u16>(), 1u8..=3, any::<u8>(), 0u8..3).prop_map(|(i, span, class, sep)| Mutation::Run(i, span, class, sep)),
     ]
     .boxed()
 }
@@ -240,13 +248,44 @@ fn mutate(text: &str, m: &Mutation) -> (String, &'static str) {
             ts.insert(pick(*i), Tok::Word(s.clone()));
             kind = "insert fragment";
         }
+        Mutation::Poke(i, at, k) => {
+            const FRAGS: [&str; 18] = ["\\", "\\\u{e9}", "\\\u{4e2d}", "\u{e9}", "\"", "'", "\\\"", "\n", "\u{1f600}\\", "\0", "-", "0x", "e", ".", "*/", "/*", "#", "\\\\"];
+            let k_tok = pick(*i);
+            let mut cs: Vec<char> = unlex(std::slice::from_ref(&ts[k_tok])).chars().collect();
+            let pos = vcore::mutate::scale(*at, cs.len() + 1);
+            for (j, c) in FRAGS[*k as usize % FRAGS.len()].chars().enumerate() {
+                cs.insert(pos + j, c);
+            }
+            ts[k_tok] = Tok::Word(cs.into_iter().collect());
+            kind = "poke inside a token";
+        }
+        Mutation::Run(i, span, class, sep) => {
+            let k = pick(*i);
+            let mut unit = String::new();
+            for t in ts.iter().skip(k).take(*span as usize) {
+                let piece = unlex(std::slice::from_ref(t));
+                if piece.contains(OPENERS) {
+                    break;
+                }
+                unit.push_str(&piece);
+            }
+            if unit.is_empty() {
+                return (text.to_string(), "none");
+            }
+            // a '#' or '//' comment ends at the line end
+            let sep = if unit.contains('#') || unit.contains("//") { "\n" } else { ["", " ", "\n"][*sep as usize % 3] };
+            unit.push_str(sep);
+            let n = run_count(*class, unit.len(), text.len());
+            ts.insert(k, Tok::Word(unit.repeat(n)));
+            kind = "token run";
+        }
     }
     (unlex(&ts), kind)
 }
 
 fn arb_random_text() -> BoxedStrategy<String> {
     let alphabet = prop_oneof![
-        6 => prop::sample::select(vec!["struct ", "union ", "enum ", "service ", "const ", "typedef ", "namespace rs ", "include ", "exception ", "list<", "map<", "set<", "i32 ", "string ", "1:", "2: optional ", "required ", "throws (", "oneway ", "void ", "extends ", "= ", "{", "}", "(", ")", "[", "]", "<", ">", ",", ";", ":", "\"", "'", "//", "/*", "*/", "#", "\n", " ", "-", "0x", "1e", ".", "true", "false", "cpp_type ", "*"]).prop_map(|s| s.to_string()),
+        6 => prop::sample::select(vec!["struct ", "union ", "enum ", "service ", "const ", "typedef ", "namespace rs ", "include ", "exception ", "list<", "map<", "set<", "i32 ", "string ", "1:", "2: optional ", "required ", "throws (", "oneway ", "void ", "extends ", "= ", "{", "}", "(", ")", "[", "]", "<", ">", ",", ";", ":", "\"", "'", "//", "/*", "*/", "#", "\n", " ", "-", "0x", "1e", ".", "true", "false", "cpp_type ", "*", "\\", "\\\"", "\\'", "\\n", "\u{e9}", "\u{4e2d}", "\u{1f600}", "+", "e", "E"]).prop_map(|s| s.to_string()),
         2 => "[a-zA-Z_][a-zA-Z0-9_]{0,6}",
         1 => "[0-9]{1,24}",
         1 => any::<char>().prop_map(|c| c.to_string()),
@@ -290,6 +329,41 @@ fn ladder_doc(kind: usize, depth: usize) -> Case {
         }
     };
     Case { text, origin: format!("work ladder: {} depth {}", LADDER_KINDS[kind], depth) }
+}
+
+const RUN_CONTEXTS: [&str; 14] = [
+    "@",
+    "struct S { @ }",
+    "enum E { @ }",
+    "const list<i32> C = [ @ ]",
+    "const i64 C = @1",
+    "const double D = @1.5",
+    "const map<i32, i32> M = { @ }",
+    "struct S { 1: i32 f ( @ ) }",
+    "service X { void m( @ ) }",
+    "struct S { 1: i32 f = @1 }",
+    "typedef @ i32 T",
+    "enum E { A = @1 }",
+    "struct S { @1: i32 f }",
+    "service X { void m() throws ( @ ) }",
+];
+const RUN_UNITS: [&str; 50] = [
+    "-", "+", "# c\n", "// c\n", "/* c */", "/**/", "/*", " ", "\n", "\t", ",", ";", ":", "=", ".", "1", "1,", "1:1,", "a", "a,", "a.", "A = 1,", "1: i32 f,", "1: i32 f;", "\"a\"", "\"a\",", "a = \"b\",", "'", "\"", "*", "/", "#", ">", "]", "}", ")", "0x", "1e", "e", "required ", "optional ", "oneway ", "const ", "i32 ", "\\", "\u{e9}", "include \"x\"\n",
+    "namespace rs x\n", "typedef i32 T\n", "const i32 K = 1\n",
+];
+
+/// Every unit repeated `count` times in every context (bounded to 64 KiB of text).
+fn run_docs(counts: &[usize]) -> Vec<Case> {
+    let mut out = vec![];
+    for ctx in RUN_CONTEXTS {
+        for unit in RUN_UNITS {
+            for count in counts {
+                let n = (*count).min((65536 - ctx.len()) / unit.len());
+                out.push(Case { text: ctx.replace('@', &unit.repeat(n)), origin: format!("run of {} x {:?} in {:?}", n, unit, ctx) });
+            }
+        }
+    }
+    out
 }
 
 fn nested_docs() -> Vec<Case> {
@@ -355,7 +429,7 @@ fn child(ctx: &Ctx) -> i32 {
     let rec = new_rec(ctx, "C16");
     {
         let mut r = rec.borrow_mut();
-        r.rule = "input = random text over an IDL-biased alphabet (up to ~16 KiB, arbitrary Unicode included), a printed generated document with one token-level mutation (delete, duplicate, swap, replace by keyword, inflate a number to 1..40 digits, unterminate a string/comment, insert a punctuation fragment), or a hand-shaped nesting probe (types, constants, defaults, annotations, unary minus runs, unclosed brackets at depth 1..64); nesting is capped at 64 as the property states; the whole run executes on a 2 MiB-stack thread in a child process; oracle: File::parse returns (Ok or Err) without panicking, the child does not die; non-trivial = mutant of a valid document or nesting probe".into();
+        r.rule = "input = random text over an IDL-biased alphabet (up to ~16 KiB, arbitrary Unicode included), a printed generated document with one token-level mutation (delete, duplicate, swap, replace by keyword, inflate a number to 1..40 digits, unterminate a string/comment, insert a punctuation fragment, poke a fragment - backslash, non-ASCII, quote - inside a token), or a hand-shaped nesting probe (types, constants, defaults, annotations, unclosed brackets at depth 1..64), or a token run (a bracket-free unit - sign, separator, comment, field, declaration, a token of a generated document - repeated 100..20000 times within 64 KiB, in every kind of position); bracket nesting is capped at 64 as the property states, a run is not nesting and is not capped; the whole run executes on a 2 MiB-stack thread in a child process; oracle: File::parse returns (Ok or Err) without panicking, the child does not die; non-trivial = mutant of a valid document or nesting probe".into();
         r.assumptions = vec!["a child death by signal is attributed to the input journaled immediately before the call".into()];
     }
     let journal = journal_path();
@@ -438,6 +512,13 @@ fn child(ctx: &Ctx) -> i32 {
             handle(c, f, &rec);
         }
     }
+    // token runs: one bracket-free unit repeated thousands of times in every kind of position.
+    // A run is not nesting, so the 2 MiB stack must hold whatever its length (up to 64 KiB of text).
+    for c in run_docs(if ctx.tier.pick(0, 1) == 0 { &[3000usize, 60000][..] } else { &[300usize, 3000, 20000, 60000][..] }) {
+        if let Err(f) = run_one(&c, "enumerated token run", true) {
+            handle(c, f, &rec);
+        }
+    }
     let n = ctx.tier.pick(60_000, 2_000_000);
     // random text
     let res = run_prop_noshrink(&rec, "c16-random", n / 3, arb_random_text(), |t: &String| {
@@ -479,7 +560,7 @@ fn child(ctx: &Ctx) -> i32 {
         }
     }
     if rec.borrow().violations.is_empty() {
-        if let Some(c) = require_classes(&rec, &["nesting probe", "random text", "random text > 4 KiB", "delete token", "duplicate token", "swap tokens", "replace by keyword", "inflate number", "unterminate string/comment", "insert fragment"]) {
+        if let Some(c) = require_classes(&rec, &["nesting probe", "random text", "random text > 4 KiB", "delete token", "duplicate token", "swap tokens", "replace by keyword", "inflate number", "unterminate string/comment", "insert fragment", "poke inside a token", "token run", "enumerated token run"]) {
             rec.borrow().finish(&ctx.findings);
             return c;
         }
